@@ -62,12 +62,9 @@ def def_universes(tier):
 
 
 def shards(tier):
-    sh = []
-    for ui, uni in enumerate(def_universes(tier)):
-        n = len(list(tm.all_states(*uni)))
-        step = 16 if tier == 'quick' else 64
-        for i in range(0, n, step):
-            sh.append(('A', ui, i, min(n, i + step)))
+    # the short phases first, the definition universes (the bulk of the thorough tier) last, so
+    # that a time cap can only ever cut the tail of phase A
+    sh = [('C',), ('BIGDEF',), ('BIGCTX',)]
     maxcells = 6 if tier == 'quick' else 9
     for n in range(1, 4):
         for m in range(1, 4):
@@ -77,9 +74,11 @@ def shards(tier):
             step = 4 if n + m >= 5 else 16
             for i in range(0, total, step):
                 sh.append(('B', n, m, i, min(total, i + step)))
-    sh.append(('C',))
-    sh.append(('BIGDEF',))
-    sh.append(('BIGCTX',))
+    for ui, uni in enumerate(def_universes(tier)):
+        n = len(list(tm.all_states(*uni)))
+        step = 16 if tier == 'quick' else 64
+        for i in range(0, n, step):
+            sh.append(('A', ui, i, min(n, i + step)))
     return sh
 
 
@@ -397,7 +396,7 @@ def main(tier):
     res.expected_hits = HITS
     procs = start_processes(tier)
     common.run_pool(res, __name__, 'run_shard', shards(tier), tier,
-                    budget_s={'quick': 300, 'thorough': 3000}[tier], maxtasks=4)
+                    budget_s={'quick': 300, 'thorough': 9000}[tier], maxtasks=4)
     phase_d(res, tier, procs)
     res.extra['hash_seeds'] = list(SEEDS)
     res.extra['distinct_observation_keys'] = int(res.counters.get('keys', 0))
@@ -428,7 +427,7 @@ def replay(v):
     elif v['clause'].startswith('definition'):
         uni = (tuple(c['universe'][0]), tuple(c['universe'][1]))
         state_triple = json.loads(c['key'])
-        state_triple = state_triple[0] if isinstance(state_triple[0][0], list) else state_triple
+        state_triple = state_triple[0] if len(state_triple) == 2 else state_triple   # [triple, op] | triple
         s = tm.from_triple(*state_triple)
         vals = []
         for ranks in (c['ranks_a'], c['ranks_b']):
